@@ -298,7 +298,7 @@ PROPS["C12"] = {
 
 _SCHNORR_A = [
     {"spec": "MC_Schnorr", "params": "mini43"},
-    {"spec": "MC_Schnorr", "params": "mini211", "tiers": ("thorough",), "timeout": 7200},
+    {"spec": "MC_Schnorr", "params": "mini79", "tiers": ("thorough",), "timeout": 7200},
 ]
 _SCHNORR_MC = ("Schnorr.tla transcribes BIP-340 (lift_x, Verify, Sign with the default nonce derivation, tagged hashes defined over a SHA-256 primitive). "
                "TLC checks on miniature curves, with the challenge ranging over ALL of Z_n, that for ALL x-only keys (liftable or not, below or above p), ALL r "
@@ -384,7 +384,8 @@ PROPS["C18"] = {
         {"spec": "MC_Api", "params": "mini211", "cfg": "MC_Api.cfg"},
     ],
     "drivers": [{"driver": "api", "trace": "Trace_Api",
-                 "shape": {"spec": "MC_Api", "cfg": "Shape_Api.cfg", "params": "mini211", "num": (6, 60), "depth": 60, "procs": 16}}],
+                 "shape": [{"spec": "MC_Api", "cfg": "Sys_Api.cfg", "params": "mini211", "mode": "bfs"},
+                           {"spec": "MC_Api", "cfg": "Shape_Api.cfg", "params": "mini211", "num": (4, 60), "depth": 60, "procs": 16}]}],
     "require_classes": {"quick": ["alias_recv", "alias_args", "alias_all", "kind_panic", "kind_err", "kind_ok", "uninit_operand", "decode_fail_valid_recv",
                                   "decode_fail_uninit_recv", "decode_ok", "key_ctor_ok", "key_ctor_err", "mutate_with_key", "mutate_buf_with_key",
                                   "mutate_scalar_with_key", "mutate_point_with_key", "msm", "msm_mismatch", "scalar_decode_err", "reply", "reset",
